@@ -383,8 +383,9 @@ class PEval:
     raise ...``, ``match``-less helper calls.  Everything else is 'unknown' (never guessed).  Nothing is executed:
     conditions are decided only when they compare constants."""
 
-    def __init__(self, module: ast.Module, atoms=None, identity=()):
+    def __init__(self, module: ast.Module, atoms=None, identity=(), distinct=()):
         self.module = module
+        self.distinct = set(distinct)
         self.atoms = dict(atoms or {})
         self.identity = set(identity)
         self.mod_defs: dict[str, ast.AST] = {}
@@ -506,9 +507,19 @@ class PEval:
                         return l[1] not in r[1]
                     except TypeError:
                         return None
-            if l[0] == "const" and r[0] == "dict" and isinstance(op, (ast.In, ast.NotIn)):
-                res = l[1] in r[1]
+            if isinstance(op, (ast.Is, ast.IsNot, ast.Eq, ast.NotEq)) and {l[0], r[0]} & {"callable", "dict"} and "const" in (l[0], r[0]):
+                c = l if l[0] == "const" else r
+                if c[1] is None:
+                    return isinstance(op, (ast.IsNot, ast.NotEq))
+            if l[0] in ("const", "atom") and r[0] == "dict" and isinstance(op, (ast.In, ast.NotIn)):
+                res = l in r[1]
                 return res if isinstance(op, ast.In) else not res
+            if isinstance(op, (ast.Eq, ast.Is, ast.NotEq, ast.IsNot)) and l[0] in ("const", "atom") and r[0] in ("const", "atom"):
+                # enum members / constants known to be pairwise distinct
+                if l == r:
+                    return isinstance(op, (ast.Eq, ast.Is))
+                if self._distinct(l) and self._distinct(r):
+                    return isinstance(op, (ast.NotEq, ast.IsNot))
         return None
 
     def _ev(self, n, env, depth):
@@ -538,17 +549,17 @@ class PEval:
                 if k is None:
                     raise _Unknown()
                 kv = self._ev(k, env, depth)
-                if kv[0] != "const":
+                if kv[0] not in ("const", "atom"):
                     raise _Unknown()
-                keys[kv[1]] = (v, dict(env))
+                keys[kv] = (v, dict(env))
             return ("dict", keys)
         if isinstance(n, ast.Subscript):
             base = self._ev(n.value, env, depth)
             key = self._ev(n.slice, env, depth)
-            if base[0] == "dict" and key[0] == "const":
-                if key[1] not in base[1]:
+            if base[0] == "dict" and key[0] in ("const", "atom"):
+                if key not in base[1]:
                     raise _Raise("KeyError")
-                node, cenv = base[1][key[1]]
+                node, cenv = base[1][key]
                 return self._ev(node, cenv, depth + 1)
             raise _Unknown()
         if isinstance(n, ast.Call):
@@ -557,9 +568,9 @@ class PEval:
             if isinstance(n.func, ast.Attribute) and n.func.attr == "get" and n.args:
                 base = self._ev(n.func.value, env, depth)
                 key = self._ev(n.args[0], env, depth)
-                if base[0] == "dict" and key[0] == "const":
-                    if key[1] in base[1]:
-                        node, cenv = base[1][key[1]]
+                if base[0] == "dict" and key[0] in ("const", "atom"):
+                    if key in base[1]:
+                        node, cenv = base[1][key]
                         return self._ev(node, cenv, depth + 1)
                     if len(n.args) > 1:
                         return self._ev(n.args[1], env, depth)
@@ -619,6 +630,26 @@ class PEval:
                     return num({"Zero": 0, "One": 1, "NegativeOne": -1}[tail])
                 return atom(d)
         raise _Unknown()
+
+    def _distinct(self, v) -> bool:
+        return v[0] == "const" or (v[0] == "atom" and v[1] in self.distinct)
+
+    def env_before(self, fn: ast.FunctionDef, args: dict, stop: ast.AST):
+        """Environment reached at the top-level statement of ``fn`` that contains ``stop`` (None when the statements
+        before it are not understood, ('raise', name) when they raise)."""
+        env = dict(args)
+        try:
+            for st in fn.body:
+                if any(x is stop for x in ast.walk(st)):
+                    return env
+                r = self._block([st], env, 0)
+                if r is not None:
+                    return None
+        except _Raise as e:
+            return ("raise", e.exc_name)
+        except _Unknown:
+            return None
+        return None
 
     def _term(self, v):
         if v[0] == "const":
